@@ -88,7 +88,10 @@ Proof.
       right. right. right. right. left. eauto.
   - eapply delta_one; [rewrite sc_out_release_stream; reflexivity | | sc_rw; reflexivity | sc_rw; reflexivity].
     right. right. right. right. left. eauto.
-  - apply delta_same; reflexivity.
+  - (* returned: the frames of the response *)
+    destruct H0 as [SC (l & E & F)]. unfold same_core in SC. decompose [and] SC.
+    split; [|sc_rw; split; [lia | intros; split; congruence]].
+    exists l. rewrite sc_out_put. split; [assumption|]. eapply Forall_impl; [|exact F]. intros y Hy. left. assumption.
   - eapply delta_one; [reflexivity | | reflexivity | reflexivity]. right. right. right. right. right. left. eauto.
   - eapply delta_one; [reflexivity | | reflexivity | reflexivity]. right. right. right. right. right. left. eauto.
   - eapply delta_one; [reflexivity | | reflexivity | reflexivity]. right. right. right. right. right. right.
